@@ -113,14 +113,12 @@ class SSMatches:
             self.k = 0
         elif self.k is None or self.k > self.ss.k:
             self.k = self.ss.k
-        if self.k is None:
+        if self.k is None or (self.ss.kbest_distances is not None and self.k > len(self.ss.kbest_distances)):
             self.k = len(self.ss.kbest_distances)
 
     def __getitem__(self, key):
         if isinstance(key, slice):
-            start = 0 if key.start is None else key.start
-            return [SSMatch(kip+start, self.ss) for kip, (_v, _i) in
-                    enumerate(self.ss.kbest_distances[key])]
+            return [SSMatch(ki, self.ss) for ki in range(self.k)[key]]
         return SSMatch(key, self.ss)
 
     def __iter__(self):
